@@ -19,7 +19,8 @@ func c19(c *eng.Ctx, r *eng.Report) {
 		"R19.2 every caller of save (AddGroup today; start-up excepted) saves only under the chain lock, after the parent exists and the predecessor equals the current last group; " +
 		"R19.3 start-up reloads exactly the keys save writes and height lookups use the same key derivation; " +
 		"R19.4 count, lastGroup and the groups store are written only by save, remove and initGroupChain; " +
-		"R19.5 every caller of remove walks from the current top downwards (remove is only correct for the last group) inside one critical section of the chain lock; " +
+		"R19.5 every caller of remove walks from the current top downwards (remove is only correct for the last group) inside one critical section of the chain lock, with the starting height read inside it; " +
+		"R19.8 a removal completes or stops the process: remove() reports failure (`return false`) only on conditions over the chain's own records (a missing group or predecessor), never on the outcome of an external call — its callers walk on to the next lower group whatever it returns, so a removal that gives up half-way (an index delete that failed) is followed by removals of groups that are not last; " +
 		"R19.6 no process-local cache sits in front of the group store unless remove() evicts from it. " +
 		"R19.7 no write batch outlives a save unreset: every Write() on a batch kept in a struct field of package core is followed by Reset() on every path (none exists today; the rule is armed for the day save() is batched). " +
 		"Not decided: a crash between the un-batched Puts of one save/remove (no intent mark exists)."
@@ -38,6 +39,7 @@ func c19(c *eng.Ctx, r *eng.Report) {
 	}
 	c19Inverse(c, r, save, remove)
 	c19RemoveTopDown(c, r, remove)
+	c19RemoveFailStop(c, r, remove)
 	c19Caches(c, r, remove)
 	c19AddGroup(c, r)
 	c19Keys(c, r, save)
@@ -223,6 +225,17 @@ func c19RemoveTopDown(c *eng.Ctx, r *eng.Report, remove *ssa.Function) {
 					}
 				} else if strings.Contains(d, ".height(") || strings.Contains(d, ".count - 1") {
 					okInit = true
+					// …and the top is sampled inside the critical section: a height read before Lock() is stale by
+					// the time the walk starts if an AddGroup got in between
+					if ein, isI := e.(ssa.Instruction); isI {
+						locked := false
+						for _, s2 := range eng.Sites(fn) {
+							if (s2.Name() == "(*sync.RWMutex).Lock" || s2.Name() == "(*sync.Mutex).Lock") && strings.HasSuffix(eng.Desc(s2.Common().Args[0]), ".lock") && eng.Dominates(s2.Instr, ein) {
+								locked = true
+							}
+						}
+						r.Check(locked, rule, key+":top-sampled-under-lock", c.Pos(ein.Pos()), "the starting height is read after chain.lock was taken", eng.FuncName(fn)+" reads the top height before taking chain.lock and starts the unwinding from that stale value: an AddGroup that extends the tip in between makes the walk start one below the real top, remove() is applied to groups that are not last, and count, predecessor list and height index diverge (persisted)")
+					}
 				}
 			}
 		}
@@ -426,4 +439,60 @@ func batchResetAs(c *eng.Ctx, r *eng.Report, rule, pkg string, min int) {
 	} else {
 		r.Pass(rule, "batch-reset:sites", "", fmt.Sprintf("%d Write() calls on long-lived batches in %s", n, pkg))
 	}
+}
+
+// c19RemoveFailStop: the unwind loops ignore remove()'s result.
+func c19RemoveFailStop(c *eng.Ctx, r *eng.Report, remove *ssa.Function) {
+	const rule = "R19.8"
+	r.Min(rule, 1)
+	bad := ""
+	n := 0
+	for _, re := range eng.Returns(remove) {
+		if eng.RetClass(re.Ret, 0, re.Pred) != "false" {
+			continue
+		}
+		n++
+		blk := re.Ret.Block()
+		if re.Pred != nil {
+			blk = re.Pred
+		}
+		for _, cd := range eng.EdgeConds(blk) {
+			// does the condition rest on a call outside package core?
+			var walk func(v ssa.Value, d int) string
+			seen := map[ssa.Value]bool{}
+			walk = func(v ssa.Value, d int) string {
+				if v == nil || d > 6 || seen[v] {
+					return ""
+				}
+				seen[v] = true
+				if call, ok := v.(*ssa.Call); ok {
+					if f := call.Call.StaticCallee(); f != nil && eng.InMod(f) && !strings.HasSuffix(eng.FuncPkgPath(f), "/src/core") {
+						return eng.FuncName(f)
+					}
+				}
+				if in, ok := v.(ssa.Instruction); ok {
+					var ops []*ssa.Value
+					for _, o := range in.Operands(ops) {
+						if *o != nil {
+							if w := walk(*o, d+1); w != "" {
+								return w
+							}
+						}
+					}
+				}
+				return ""
+			}
+			if w := walk(cd.V, 0); w != "" {
+				bad = "returns false at " + c.Pos(re.Ret.Pos()) + " depending on " + w
+			}
+		}
+	}
+	// callers that do test the result make the rule moot
+	allTest := true
+	for _, site := range c.Callers(remove) {
+		if v, isV := site.Instr.(ssa.Value); !isV || v.Referrers() == nil || len(*v.Referrers()) == 0 {
+			allTest = false
+		}
+	}
+	r.Check(bad == "" || allTest, rule, "remove:fail-stop", c.Pos(remove.Pos()), fmt.Sprintf("%d failing exits, all on the chain's own records", n), "groupChain.remove "+bad+" while its callers ignore the result and go on removing lower groups: after one removal that gave up, remove() — correct only for the last group — is applied to groups that are not last; count, predecessor list and height index diverge and the damage is persisted")
 }
